@@ -18,7 +18,8 @@ RULE = ('each generated / corpus function and a transformed twin are analysed by
 EXPLANATION = 'see DESIGN.md C12'
 ASSUMPTIONS = []
 
-KEYWORDS = {'int', 'for', 'while', 'do', 'if', 'else', 'return', 'f', 'g'}
+# not variables: keywords, the function names, and the two call names the analysis knows
+KEYWORDS = {'int', 'long', 'for', 'while', 'do', 'if', 'else', 'return', 'f', 'g', 'assert', 'assume', 'sizeof', 'break', 'continue'}
 
 
 def observe(src, fin, fname=None):
